@@ -6,6 +6,7 @@ package main
 import (
 	"fmt"
 	"go/types"
+	"os"
 	"sort"
 	"strings"
 
@@ -429,4 +430,102 @@ func (r *rwRT) writtenRewriterFields() []string {
 	}
 	sort.Strings(out)
 	return out
+}
+
+// ------------------------------------------------------------------ RW.COMMENTS
+//
+// go/printer prints the doc comments attached to nodes only when File.Comments is nil; with a
+// non-nil list it prints exactly the listed groups. rewriteFile replaces the list (free-floating
+// comments are dropped on purpose): whenever the list it installs can be non-nil, the doc comments
+// of the file's own nodes must have been collected into it — otherwise every declaration of a file
+// that contains a generator literal loses its doc comment, including directives (//go:embed,
+// //go:noinline, //go:generate) that change what plain declarations do.
+func (r *rwRT) ruleComments() {
+	c := r.c
+	c.min("RW.COMMENTS", 1)
+	fn := r.method("rewriter", "rewriteFile")
+	c.fn(relName(fn))
+	pos := r.w.FnPos(fn)
+	in := r.interp(rwConfig{root: fn, boundaries: map[string]bool{"rewriteFile": false, "attachComment": true, "rewriteForRanges": true, "rewriteIter": true, "mkYieldFromRewriter": true, "mkYieldRewriter": true, "collectYieldFunc": true}})
+	in.MaxDepth, in.MaxVisits = 10, 12
+	passNames := map[string]bool{"attachComment": true, "rewriteForRanges": true, "rewriteIter": true, "mkYieldFromRewriter": true, "mkYieldRewriter": true, "collectYieldFunc": true}
+	in.Inline = func(f *ssa.Function) bool {
+		return inRw(f) && !passNames[f.Name()] && f.Name() != "rewriteYieldFunc" && !reachesFn(f, "rewriteYieldFunc", 4)
+	}
+	// the passes may have attached comments: after a traversal the list is unknown (nil or not)
+	in.OnCall = wrapOnCall(in.OnCall, func(cc *CallCtx) []Answer {
+		if cc.Fn != nil && cc.Fn.Name() == "Apply" && strings.Contains(fnPkgPath(cc.Fn), "astutil") {
+			return []Answer{{Ret: []AV{Sym{Name: "applied"}}, Do: func(st *State) {
+				for k := range st.symMem {
+					if strings.HasPrefix(k, "r.") && !strings.Contains(k, "ImportedName") {
+						st.symMem[k] = Sym{Name: k + "'"}
+					}
+				}
+			}}}
+		}
+		return nil
+	})
+	outs := in.Run(nil, fn, []AV{Sym{Name: "r", NN: true}, Sym{Name: "f", NN: true}, Sym{Name: "printer", NN: true}}, nil)
+	r.account(in)
+	checked := 0
+	bad := ""
+	for _, o := range outs {
+		if o.Panicked || o.St.Truncated {
+			continue
+		}
+		lastStore, collected := -1, false
+		if os.Getenv("VERIF_DEBUG_COMMENTS") != "" {
+			for _, e := range o.St.Events {
+				if e.Kind == "store" {
+					fmt.Fprintf(os.Stderr, "COMMENTS store %s\n", e.Target)
+				}
+			}
+		}
+		for i, e := range o.St.Events {
+			if e.Kind == "store" && strings.HasSuffix(epochRe.ReplaceAllString(e.Target, ""), "File.Comments") {
+				lastStore = i
+			}
+			if e.Kind == "call" && e.Fn != nil && (e.Fn.Name() == "Inspect" || e.Fn.Name() == "Walk") && strings.HasSuffix(fnPkgPath(e.Fn), "go/ast") && len(e.Args) >= 1 {
+				names := map[string]bool{}
+				symNames(o.St, e.Args[0], names, map[int]bool{})
+				for n := range names {
+					if derivedFrom(n, "f.File") || derivedFrom(n, "f") {
+						collected = true
+					}
+				}
+			}
+		}
+		if lastStore < 0 {
+			continue // the list is left as parsed: go/printer sees the original comments
+		}
+		checked++
+		v := o.St.Events[lastStore].Args[0]
+		// is the installed list known to be nil on this path?
+		isNil := false
+		if n, known := nilness(v); known && n {
+			isNil = true
+		}
+		for _, cd := range o.St.Conds {
+			cs := epochRe.ReplaceAllString(condCanon(cd), "")
+			if strings.Contains(strings.ToLower(cs), "comments") && strings.Contains(cs, "nil") && (strings.HasPrefix(cs, "==(") || strings.HasPrefix(cs, "!(!=(")) {
+				isNil = true
+			}
+		}
+		if os.Getenv("VERIF_DEBUG_COMMENTS") != "" {
+			var cs []string
+			for _, cd := range o.St.Conds {
+				cs = append(cs, condCanon(cd))
+			}
+			fmt.Fprintf(os.Stderr, "COMMENTS v=%s isNil=%v collected=%v conds=%v\n", v, isNil, collected, cs)
+		}
+		if !isNil && !collected {
+			bad = "a possibly non-empty comment list is installed in the file without the doc comments of the file's own nodes having been collected into it: go/printer then drops every doc comment — and directive — of the plain declarations: " + pathSummary(o)
+		}
+	}
+	if checked == 0 {
+		c.ok("RW.COMMENTS", "doc comments survive the installed comment list", pos, "rewriteFile does not replace the file's comment list")
+		return
+	}
+	c.check(bad == "", "RW.COMMENTS", "doc comments survive the installed comment list", pos,
+		fmt.Sprintf("%d paths: the installed list is nil, or the doc comments of the file's nodes were collected into it", checked), bad)
 }
